@@ -151,6 +151,12 @@ def r2(ctx):
         hn = next(n for n in cfg.nodes if n.kind == "handler" and n.ast is h)
         p = cfg.paths_avoiding(hn, set(), {cfg.exit.id})
         caught = unparse(h.type, 40) if h.type is not None else "<bare>"
+        if p is not None and not _guards_package_work(ana, fi, tr):
+            # a handler around pure library conversions (int(x), np.asarray(x) ...) cannot absorb a failed task, a donor
+            # shortage or a wrong-input error: none of them can be raised inside its try block
+            ctx.ok(fi, f"handler `except {caught}` (line {h.lineno}) guards library calls only (no package function, no task result)",
+                   line=h.lineno, role=f"handler:{caught}:library-only")
+            continue
         ctx.check(p is None, fi, f"handler `except {caught}` (line {h.lineno}) raises on every path",
                   line=h.lineno, role=f"handler:{caught}",
                   expected="every path through the handler ends in raise",
@@ -188,6 +194,23 @@ def r2(ctx):
         ctx.check(not swallowed, fi, f"an exception raised by get() at line {call.lineno} leaves the function",
                   line=call.lineno, role="get:propagates",
                   expected="exception of the worker propagates unchanged", found="a handler around get() reaches a normal exit")
+
+
+def _guards_package_work(ana, fi, tr: ast.Try) -> bool:
+    """The try body (or its else clause) calls a package function, a method of a package class, a task-result getter, or
+    something the resolver cannot identify."""
+    for st in tr.body + tr.orelse:
+        for n in ast.walk(st):
+            if isinstance(n, ast.Call):
+                c = ana.res.callee(fi, n)
+                if c.kind in ("internal", "method_internal", "ctor", "local", "unknown"):
+                    return True
+                if c.kind == "method_unknown" and c.target not in ("append", "extend", "items", "keys", "values", "tolist", "astype", "reshape",
+                                                                     "copy", "format", "join", "split", "strip", "debug", "info", "warning"):
+                    return True
+            if isinstance(n, (ast.Raise, ast.Assert)):
+                return True
+    return False
 
 
 def _fed_by_tasks(ana, fi, call) -> bool:
